@@ -363,7 +363,7 @@ class Command(Frame):
 
         verb = parts.pop(0)
         seqn = "---" if DEVICE_ID_REGEX.ANY.match(parts[0]) else parts.pop(0)
-        payload = parts.pop()[:48]
+        payload = parts.pop()[:96]  # 48 bytes, as hex
         code = parts.pop()
 
         addrs: tuple[DeviceIdT | str, DeviceIdT | str, DeviceIdT | str]
